@@ -581,7 +581,16 @@ def r3_exemptions(run, w):
   au = inl.fn("engine.Engine.apply_user_actions")
   acfg = au.cfg
   clears = au.nodes_calling(lambda c, nm, f: endswith(nm, "self.%s.clear" % PMAP))
-  applies = au.nodes_calling(lambda c, nm, f: endswith(nm, "self._apply_one_user_action"))
+  aex = expander(au)
+  def applies_user_action(c, nm, f):
+    """self._apply_one_user_action(ua), or its body written in place: the dynamic dispatch
+    getattr(self.user_actions, <action name>)(*ua)"""
+    if endswith(nm, "self._apply_one_user_action"):
+      return True
+    g = aex.expand(c.func)
+    return isinstance(g, ast.Call) and dotted(g.func) == "getattr" and len(g.args) >= 2 and \
+        (endswith(dotted(g.args[0]), "user_actions") or au.type_of(g.args[0]) == T.USERACTIONS)
+  applies = au.nodes_calling(applies_user_action)
   if not applies:
     raise AnalysisError("apply_user_actions: _apply_one_user_action call not found")
   p_actions = au.fi.params()[1]
